@@ -7,13 +7,22 @@ from lib.checkdef import default_replay_cmd, run_property
 from lib.report import REPO, VENV_PY, VERIF
 
 
+_memo = {}
+
+
 def _replay(rep, r):
-    if not r.name.startswith("C04.copy"):
+    if r.name.startswith("C04.shape"):
+        script = "c04_shape_replay.py"
+    elif r.name.startswith("C04.copy"):
+        script = "c04_replay.py"
+    else:
         return None, False, None
-    env = dict(os.environ, PYTHONPATH=os.path.join(REPO, "src") + os.pathsep + VERIF)
-    p = subprocess.run([VENV_PY, os.path.join(VERIF, "runtime", "c04_replay.py"), r.name], capture_output=True, text=True, env=env, timeout=300)
-    lines = [l for l in p.stdout.splitlines() if l.startswith("{")]
-    out = json.loads(lines[-1]) if lines else dict(confirmed=False, note=p.stderr[-300:])
+    if script not in _memo:
+        env = dict(os.environ, PYTHONPATH=os.path.join(REPO, "src") + os.pathsep + VERIF)
+        p = subprocess.run([VENV_PY, "-W", "ignore", os.path.join(VERIF, "runtime", script), r.name], capture_output=True, text=True, env=env, timeout=300)
+        lines = [l for l in p.stdout.splitlines() if l.startswith("{")]
+        _memo[script] = json.loads(lines[-1]) if lines else dict(confirmed=False, note=p.stderr[-300:])
+    out = _memo[script]
     path = rep.write_replay(r.name, dict(obligation=r.to_json(), solver_output=r.model, confirmed=out.get("confirmed", False), replay=out))
     return path, out.get("confirmed", False), out
 
@@ -21,7 +30,7 @@ def _replay(rep, r):
 def run(tier, seed):
     return run_property(
         "C04", tier, seed, level="other",
-        deductive=[("c04_graph", None), ("c_op", r"^C04\.base|^op\.")],
+        deductive=[("c04_graph", None), ("c04_shape", None), ("c_op", r"^C04\.base|^op\.")],
         bounded=[("graph_bounded.py", ["--check", "C04"]), ("graph_bounded.py", ["--check", "C04h"])],
         replay=_replay,
         trusted=["NumPy itself (values, np.shares_memory, ownership) is the specification of every statement", "pyvc heap model of Tensor/Operation fields"],
